@@ -2134,19 +2134,17 @@ TWINS = list(TWINS) + [
 # round-4 seeded changes
 MUTANTS = list(MUTANTS) + [
     ("reader hides zero-length feature datasets", EVT,
-     ('                self._features_list.remove("trace")\n'
-      '        return self._features_list',
-      '                self._features_list.remove("trace")\n'
-      '            for feat in list(self._features_list):\n'
+     ('                features.remove("trace")\n',
+      '                features.remove("trace")\n'
+      '            for feat in list(features):\n'
       '                shape = getattr(self.h5file["events"][feat], '
       '"shape", None)\n'
       '                if shape and shape[0] == 0:\n'
-      '                    self._features_list.remove(feat)\n'
-      '        return self._features_list'), "R13.1"),
+      '                    features.remove(feat)\n'), "R13.1"),
     ("reader keeps the empty trace group", EVT,
-     ('            if ("trace" in self._features\n'
+     ('            if ("trace" in features\n'
       '                    and len(self.h5file["events"]["trace"]) == 0):\n'
-      '                self._features_list.remove("trace")\n', ""), "R13.1"),
+      '                features.remove("trace")\n', ""), "R13.1"),
     ("ROI compared with the first image-like feature only", CHK,
      ('                                cfg_section="imaging",\n'
       '                                cfg_key=roi))\n        return cues',
@@ -2163,7 +2161,7 @@ TWINS = list(TWINS) + [
       '                                cfg_key=roi))\n'
       '                            continue\n        return cues')),
     ("reader builds the feature list with a comprehension", EVT,
-     ('            self._features_list = sorted(self.h5file["events"].keys())',
-      '            self._features_list = sorted(\n'
+     ('            features = sorted(self.h5file["events"].keys())',
+      '            features = sorted(\n'
       '                [ft for ft in self.h5file["events"].keys()])')),
 ]
